@@ -124,3 +124,29 @@
     //@ERR
     //@PAYLOAD_LZMA_W
     fn c02_lzip_hist_n8193() { lzip_write_members_n(1, true, 8193); }
+
+    /// C19 / C18.clamp: LZIPWriter::new normalises *every* option value a caller can supply: LZMA-302eos parameters
+    /// (lc=3, lp=0, pb=2 - the format cannot express others and the reader assumes them), dictionary clamped into
+    /// 4 KiB..512 MiB (so the header byte exists), member size raised to the dictionary size.
+    #[kani::proof]
+    #[kani::unwind(4)]
+    fn c19_lzip_new_normalises() {
+        let (lc, lp, pb, dict): (u32, u32, u32, u32) = (vk::any(), vk::any(), vk::any(), vk::any());
+        let member: u64 = vk::any();
+        let o = LZIPOptions {
+            lzma_options: LZMAOptions { dict_size: dict, lc, lp, pb, mode: crate::EncodeMode::Fast, nice_len: 32, mf: crate::MFType::HC4, depth_limit: 0, preset_dict: None },
+            member_size: NonZeroU64::new(member),
+        };
+        let w = LZIPWriter::new(vk::Sink::<4>::new(), o);
+        let l = &w.options.lzma_options;
+        assert!(l.lc == 3 && l.lp == 0 && l.pb == 2);
+        assert!(l.dict_size >= MIN_DICT_SIZE && l.dict_size <= MAX_DICT_SIZE);
+        assert!(l.dict_size == if dict < MIN_DICT_SIZE { MIN_DICT_SIZE } else if dict > MAX_DICT_SIZE { MAX_DICT_SIZE } else { dict });
+        assert!(encode_dict_size(l.dict_size).is_ok());
+        match w.options.member_size {
+            None => assert!(member == 0),
+            Some(m) => assert!(m.get() == if member < l.dict_size as u64 { l.dict_size as u64 } else { member }),
+        }
+        assert!(!w.header_written && !w.finished && w.lzma_writer.is_none());
+        core::mem::forget(w);
+    }
